@@ -27,14 +27,16 @@ CHECKS["C01"] = dict(
           "entrywise symmetry and constants->0 (any geometry); on non-degenerate meshes (the code's own guard inactive) f.A.g = sum of "
           "measure * grad f . grad g with the spec gradient characterised independently, hence PSD; all denominators non-zero; aniso: "
           "symmetric, constant-annihilating, PSD for weights >= 0, weights from aniso >= 0 lie in (0,1], element blocks equal the isotropic "
-          "ones for weights (1,1) and never exceed them for weights in [0,1] given an orthonormal in-plane frame. Order/orientation "
-          "invariance and float32 agreement are covered by correspondence + oracle only (partial)."),
+          "ones for weights (1,1) and never exceed them for weights in [0,1] given an orthonormal in-plane frame; on non-degenerate "
+          "meshes the form f.A.g is unchanged by any reordering of the triangles and by any of the six orders of the three indices of "
+          "each triangle (cyclic rotation, flip). Invariance of the tetra matrix under index order, relabelling and float32 agreement "
+          "are covered by correspondence + oracle only (partial)."),
     design="6/C01", technique="Coq proof (ring/field identities + list-induction assembly lemmas) + vm_compute correspondence at binary64")
 CHECKS["C02"] = dict(
     text=("Theorems for all meshes: mass matrices (tria/tet, full/lumped) symmetric, stored entries > 0 on non-degenerate meshes, entries "
           "sum to total measure, x.B.y equals the closed form of the exact integral which equals the edge-midpoint quadrature (exact for "
-          "quadratics) for triangles, lumped = diagonal of row sums. Equality of Solver.fem_tria_mass with Solver.mass is decided by "
-          "correspondence + oracle (both are modelled)."),
+          "quadratics) for triangles, lumped = diagonal of row sums; the stand-alone Solver.fem_tria_mass returns, entry by entry, "
+          "the matrix Solver(...) assembles on every mesh without a degenerate triangle (both routines are modelled separately)."),
     design="6/C02", technique="Coq proof (ring/field + assembly lemmas) + vm_compute correspondence at binary64")
 
 CHECKS["C09"] = dict(
@@ -124,15 +126,18 @@ CHECKS["C05"] = dict(
           "system with renumbering, re-insertion), universally quantified over the sparse solver (a Section parameter with the contract "
           "'returns a solution of the system it is given'): the result takes exactly the prescribed Dirichlet values; at every other vertex "
           "A x = B(h - n) for scalar or vector h and any Neumann data; duplicate indices, mismatched lengths and wrong-size h give "
-          "ValueError before any solve. Uniqueness/linearity/affine reproduction and the float32 accuracy are decided by the certificate "
-          "check (implementation output verified against the model's equation inside Coq) and oracles (partial)."),
+          "ValueError before any solve; superposition: whenever the Dirichlet problem on the free vertices has only the trivial "
+          "solution, results for linearly combined (right-hand side, Dirichlet data, Neumann data) combine linearly, for every solver "
+          "meeting the contract. Affine reproduction on flat meshes and the float32 accuracy are decided by the certificate check "
+          "(implementation output verified against the model's equation inside Coq) and oracles (partial)."),
     design="6/C05", technique="Coq proof parametric in the solver oracle + in-Coq certificate check of the implementation's solution")
 
 CHECKS["C07"] = dict(
     text=("Theorems over R: any solution of (B + tA) u = b conserves total heat (sum B u = sum b) whenever A is symmetric and kills "
           "constants (proved for the triangle and tetra stiffness in C01); the indicator sums to the number of distinct seeds; for "
           "non-degenerate triangle meshes and t >= 0 the system is positive definite, hence its solution unique (additivity); kernel "
-          "symmetric in (p,q) and diagonal = kernel at p=q. The solver is an oracle: the implementation's u is verified inside Coq "
+          "symmetric in (p,q) and diagonal = kernel at p=q; solutions for b1, b2 and b1+b2 from any solver add up (additivity over seed "
+          "sets as a theorem). The solver is an oracle: the implementation's u is verified inside Coq "
           "against the model's system (lumped mass, t = m*avg_edge^2, indicator). Rigid/scale laws, aniso and numpy broadcasting of "
           "kernel/diagonal are covered by correspondence + oracles (partial)."),
     design="6/C07", technique="Coq proof over R + in-Coq certificate check of the implementation's solution + formula-level kernel model")
@@ -154,8 +159,9 @@ CHECKS["C03"] = dict(
           "quotient), constants are eigenvectors for 0, eigenvectors of distinct eigenvalues are B-orthogonal, the shift-invert operator "
           "A - sigma B (sigma < 0) is positive definite and its eigenpairs map back via lambda = sigma + 1/nu. ARPACK/SuperLU are oracles: "
           "each returned (w, V) is verified inside Coq against the model's A, B (residual of A v = w B v, V^T B V = I, ascending) and "
-          "against the dense reference spectrum / component count in the Python oracle. Completeness of Lanczos on highly degenerate "
-          "spectra is not covered (known finding F18) (partial)."),
+          "against the dense reference spectrum / component count in the Python oracle. The kernel of the triangle stiffness matrix is "
+          "exactly the set of functions constant on every triangle, i.e. on every connected component (one zero eigenvalue per "
+          "component). Completeness of Lanczos on highly degenerate spectra is not covered (known finding F18) (partial)."),
     design="6/C03", technique="Coq proof over R (bilinear-form arguments) + in-Coq certificate check of returned eigenpairs")
 
 CHECKS["C04"] = dict(
